@@ -15,14 +15,33 @@ Definition show_info (i : option info) : string :=
   | _ => "peer=- host=-"
   end.
 
-Definition show_result (r : list N * wstate) : string :=
-  show_info (final_info (snd r)) ++ " data=" ++ show_hex (fst r) ++
+(** the address pairs seen from inside the wrapped protocol's dataReceived calls (consecutive duplicates merged) *)
+Definition show_pair_of (i : option info) : string :=
+  match i with
+  | Some (Inet v6 udp s d sp dp) => show_addr v6 udp s sp ++ ">" ++ show_addr v6 udp d dp
+  | Some (Unix s d) => "X(" ++ show_hex s ++ ")>X(" ++ show_hex d ++ ")"
+  | _ => "->-"
+  end.
+Fixpoint dedupe (prev : string) (l : list string) : list string :=
+  match l with
+  | [] => []
+  | x :: r => if String.eqb x prev then dedupe prev r else x :: dedupe x r
+  end.
+Definition show_seen (tags : list (option info * N)) : string :=
+  match tags with
+  | [] => "none"
+  | _ => String.concat "+" (dedupe "" (map (fun t => show_pair_of (fst t)) tags))
+  end.
+
+Definition show_result_in (seen : string) (r : list N * wstate) : string :=
+  show_info (final_info (snd r)) ++ " in=" ++ seen ++ " data=" ++ show_hex (fst r) ++
   (match snd r with None => " |closed" | Some _ => " |open" end).
 
 (** [orig = true]: the unrepaired wrapper (version chosen from the first delivery only) *)
 Definition run_show (c : bool * list bytes) : string :=
   let (orig, cs) := c in
-  show_result (run (if orig then wfeed_orig else wfeed) winit cs).
+  let seen := if orig then "n/a" else show_seen (fst (run wfeed_tagged winit cs)) in
+  show_result_in seen (run (if orig then wfeed_orig else wfeed) winit cs).
 
 From TwLib Require Import FramingShow.
 (** one case = a single chunking, or (stream, lim): the whole family [split_family lim stream] *)
